@@ -309,6 +309,21 @@ def check(case):
             illc += ill
             nontrivial |= nt
             states += 1
+        # the same object evaluated with argument BUFFERS that are overwritten in place between calls (as an element loop
+        # does): results must depend on the values handed over, not on the identity of the arrays or on earlier calls
+        bufG, bufG0, bufK, bufK0 = (np.empty(3) for _ in range(4))
+        bufK[:], bufK0[:] = kappa_letters(seed, tier)[1][1], K0
+        G1 = next(G for _, G in gamma_letters(seed, tier) if np.any(G))
+        for g0n, G0b in gamma_letters(seed, tier):
+            bufG[:], bufG0[:] = G1, G0b
+            for rname in ("potential", "B_n", "B_m", "B_n_B_Gamma", "B_m_B_Kappa"):
+                got = np.asarray(getattr(mat, rname)(bufG, bufG0, bufK, bufK0), float)
+                want = np.asarray(getattr(_make(law, Ei, Fi), rname)(G1.copy(), np.array(G0b, float), bufK.copy(), bufK0.copy()), float)
+                evals += 1
+                e = fd.err(got, want)
+                if not e <= 1e-12 * (1.0 + float(np.max(np.abs(want)))):
+                    fails.append({"site": f"{law}.{rname} with re-used argument buffers vs fresh object and fresh arrays",
+                                  "msg": f"error {e:.3e} at Gamma0 letter {g0n}", "data": {"law": law, "stiff": sname, "gamma0": g0n, "err": e}})
     else:
         # unisolvent set for quadratics in x = (Gamma, Gamma0, Kappa, Kappa0) in R^12
         pts = [np.zeros(12)]
